@@ -202,7 +202,12 @@ class CamModel:
         return ("cam", w.last_n, w.ref.last_lf_ms == w.ref.last_cam_ms and w.last_n > 0, w.cam_tm.t_gen_cam, w.cut)
 
     def share(self, w):
-        return F.shared_objects(w)
+        # immutable values (report dicts are never mutated by anybody, path-history entries are tuples of floats) are
+        # shared between snapshots: 3x fewer objects per deepcopy
+        out = F.shared_objects(w)
+        out += [d for d in (w.ref.report, w.ref.last_cam_report, getattr(w.cam_tm, "_current_tpv", None)) if d is not None]
+        out += list(getattr(w.cam_tm, "_path_history", ()))
+        return out
 
 
 def mk_cam(*a):
@@ -306,7 +311,7 @@ class VamModel:
         return ("vam", w.last_n, w.ref.last_lf_ms == w.ref.last_vam_ms and w.last_n > 0, w.cut)
 
     def share(self, w):
-        return F.shared_objects(w)
+        return F.shared_objects(w) + [d for d in (w.ref.last_vam_report,) if d is not None]
 
 
 def mk_vam(*a):
@@ -384,20 +389,20 @@ def _parts(thorough, seed):
     none = ["none", 0]
     cam = [
         # label, args(periods, dyns, delays, check_period, allow_stop, gaps, seed, first_delays), depth, split
-        ("cam_timing", ([20, 100, 250, 1000], D(none, ["s", 2], ["s", 0]), [0, 50, 99], 100, True, [1200], seed), 8 if thorough else 6, 2),
+        ("cam_timing", ([20, 100, 250, 1000], D(none, ["s", 2], ["s", 0]), [0, 50, 99], 100, True, [1200], seed), 7 if thorough else 5, 2),
         ("cam_thresholds", ([100], D(none, *[["h", i] for i in range(5)], *[["s", i] for i in range(4)], *[["p", i] for i in range(4)]),
                             [0], 100, False, [], seed), 7 if thorough else 5, 2),
         ("cam_missing", ([100, 1000], D(none, *[["miss", f] for f in MISSABLE], ["s", 2], ["h", 3]), [0], 100, True, [], seed),
-         6 if thorough else 5, 2),
+         6 if thorough else 4, 2),
         ("cam_fast_lf", ([100], D(["s", 2], ["s", 0], none), [0], 100, False, [], seed), 14 if thorough else 10, 2),
-        ("cam_check50", ([20, 100], D(none, ["s", 2], ["s", 0], ["h", 3], ["h", 1]), [0, 49], 50, True, [], seed), 9 if thorough else 7, 2),
+        ("cam_check50", ([20, 100], D(none, ["s", 2], ["s", 0], ["h", 3], ["h", 1]), [0, 49], 50, True, [], seed), 8 if thorough else 6, 2),
         ("cam_steady", ([1000, 100], D(none), [0], 100, False, [], seed, [0]), 400, 1),
     ]
     if thorough:
         cam.append(("cam_check20", ([20, 100], D(none, ["s", 2], ["s", 0]), [0, 19], 20, False, [], seed), 9, 2))
     vam = [
         # label, args(periods, dyns, gaps, clustering, seed), depth, split
-        ("vam_timing", ([20, 50, 100, 250, 1000], D(none), [1900, 6000, 65500], False, seed), 9 if thorough else 7, 2),
+        ("vam_timing", ([20, 50, 100, 250, 1000], D(none), [1900, 6000, 65500], False, seed), 8 if thorough else 6, 2),
         ("vam_dynamics", ([20, 100], D(none, ["s", 1], ["s", 2], ["s", 0], ["h", 2], ["h", 3], ["h", 1], ["p", 2], ["p", 0]), [], False, seed),
          6 if thorough else 5, 2),
         ("vam_missing", ([20, 100, 1000], D(none, *[["miss", f] for f in MISSABLE]), [], False, seed), 5 if thorough else 4, 1),
@@ -405,6 +410,47 @@ def _parts(thorough, seed):
         ("vam_steady", ([1000, 100], D(none), [], False, seed), 400, 1),
     ]
     return cam, vam
+
+
+def _gdt_lattices(ctx, pool, thorough):
+    # ---- generationDeltaTime lattices --------------------------------------------------------------
+    # (a) every millisecond of whole 65 536 ms cycles (two cycles straddling a wrap) x microsecond fractions
+    k0 = (F.BASE_MS - F.ITS_EPOCH_MS + F.LEAP_MS) // 65536
+    base = F.ITS_EPOCH_MS - F.LEAP_MS + k0 * 65536 - 32768
+    micros = [0, 999] if not thorough else [0, 1, 500, 999]
+    span = 2 * 65536
+    step = 4096
+    jobs = [(base + i, base + min(i + step, span), micros) for i in range(0, span, step)]
+    rng = random.Random(ctx.seed)
+    rng.shuffle(jobs)
+    gn = 0
+    for n, bad in pool.imap_unordered(_gdt_chunk, jobs):
+        gn += n
+        for rec in bad:
+            ctx.violation(dict(rec, part="gdt_cycle"), replay=dict(call="gdt", unix_ms=rec["unix_ms"], micro=rec["micro"]))
+    ctx.parts["gdt_cycle"] = dict(evaluations=gn, unix_ms=[base, base + span - 1], micros=micros)
+    # (b) whole pipeline around multiples of 65 536 ms, incl. sub-millisecond clock fractions
+    cyc = [1, k0 - 1, k0, k0 + 1, k0 + 1000, 2 ** 24, 2 ** 25 - 1] if not thorough else \
+        [1, 2, k0 - 1, k0, k0 + 1, k0 + 2, k0 + 1000, k0 + 100000, 2 ** 24, 2 ** 25 - 1]
+    offs = [-2, -1, 0, 1, 2, 32767, 32768] if not thorough else [-3, -2, -1, 0, 1, 2, 3, 255, 256, 32767, 32768, 65535 - 100]
+    fracs = [0.0, 0.25, 0.999]
+    jobs = [([k], offs, fracs) for k in cyc]
+    pn = 0
+    seen_gdt = set()
+    for n, bad, seen in pool.imap_unordered(_gdt_pipeline, jobs):
+        pn += n
+        seen_gdt.update(seen)
+        for rec in bad:
+            ctx.violation(dict(rec, part="gdt_pipeline"), replay=dict(call="gdt_pipeline", unix_ms=rec.get("unix_ms"), frac=rec.get("frac")))
+    ctx.parts["gdt_pipeline"] = dict(evaluations=pn, cycles=cyc, offsets_ms=offs, clock_fractions_ms=fracs, distinct_gdt=len(seen_gdt))
+    return gn, pn
+
+
+
+def _bfs_job(args):
+    which, label, margs, prefix, depth = args
+    m = (mk_cam if which == "cam" else mk_vam)(*margs)
+    return label, X.bfs(m, depth, prefix=prefix, xcheck_every=89)
 
 
 def run(ctx):
@@ -415,67 +461,55 @@ def run(ctx):
     digests, samples, caps = [], [], []
     outcomes = set()
     closed = {}
-
-    def take(r, label, which):
-        nonlocal states, trans, xchecks, pruned
-        states += r.states
-        trans += r.transitions
-        xchecks += r.xchecks
-        pruned += r.pruned
-        digests.append((label, r.digest()))
-        samples.extend(r.samples[:1])
-        outcomes.update(r.outcomes)
-        closed[label] = bool(r.complete)
-        if r.cap_hit:
-            caps.append((label, r.cap_hit))
-        seen = set()
-        for rec, hist in r.violations:
-            rec.setdefault("part", label)
-            key = json.dumps(rec, sort_keys=True, default=repr)
-            if key in seen:
-                continue
-            seen.add(key)
-            ctx.violation(rec, replay=dict(part=label, which=which, history=hist))
-        ctx.parts[label] = dict(states=r.states, transitions=r.transitions, max_depth=r.max_depth, graph_closed=r.complete,
-                                cap=r.cap_hit, xchecks=r.xchecks, outcomes=len(r.outcomes), pruned_successors=r.pruned)
-
-    for label, args, depth, split in cam_parts:
-        take(X.parallel_bfs(mk_cam, args, depth, split_depth=split, xcheck_every=89), label, "cam")
-    for label, args, depth, split in vam_parts:
-        take(X.parallel_bfs(mk_vam, args, depth, split_depth=split, xcheck_every=89), label, "vam")
-
-    # ---- generationDeltaTime lattices --------------------------------------------------------------
-    with mp.Pool(16) as pool:
-        # (a) every millisecond of whole 65 536 ms cycles (two cycles straddling a wrap) x microsecond fractions
-        k0 = (F.BASE_MS - F.ITS_EPOCH_MS + F.LEAP_MS) // 65536
-        base = F.ITS_EPOCH_MS - F.LEAP_MS + k0 * 65536 - 32768
-        micros = [0, 999] if not thorough else [0, 1, 500, 999]
-        span = 2 * 65536
-        step = 4096
-        jobs = [(base + i, base + min(i + step, span), micros) for i in range(0, span, step)]
-        rng = random.Random(ctx.seed)
-        rng.shuffle(jobs)
-        gn = 0
-        for n, bad in pool.imap_unordered(_gdt_chunk, jobs):
-            gn += n
-            for rec in bad:
-                ctx.violation(dict(rec, part="gdt_cycle"), replay=dict(call="gdt", unix_ms=rec["unix_ms"], micro=rec["micro"]))
-        ctx.parts["gdt_cycle"] = dict(evaluations=gn, unix_ms=[base, base + span - 1], micros=micros)
-        # (b) whole pipeline around multiples of 65 536 ms, incl. sub-millisecond clock fractions
-        cyc = [1, k0 - 1, k0, k0 + 1, k0 + 1000, 2 ** 24, 2 ** 25 - 1] if not thorough else \
-            [1, 2, k0 - 1, k0, k0 + 1, k0 + 2, k0 + 1000, k0 + 100000, 2 ** 24, 2 ** 25 - 1]
-        offs = [-2, -1, 0, 1, 2, 32767, 32768] if not thorough else [-3, -2, -1, 0, 1, 2, 3, 255, 256, 32767, 32768, 65535 - 100]
-        fracs = [0.0, 0.25, 0.999]
-        jobs = [([k], offs, fracs) for k in cyc]
-        pn = 0
-        seen_gdt = set()
-        for n, bad, seen in pool.imap_unordered(_gdt_pipeline, jobs):
-            pn += n
-            seen_gdt.update(seen)
-            for rec in bad:
-                ctx.violation(dict(rec, part="gdt_pipeline"), replay=dict(call="gdt_pipeline", unix_ms=rec.get("unix_ms"), frac=rec.get("frac")))
-        ctx.parts["gdt_pipeline"] = dict(evaluations=pn, cycles=cyc, offsets_ms=offs, clock_fractions_ms=fracs, distinct_gdt=len(seen_gdt))
-        trans += pn
+    results = {}
+    jobs = []
+    which_of = {}
+    # one pool for all parts: the tree below every distinct state at the split depth is one job (states are
+    # de-duplicated inside a job only, which costs time, never coverage; digests are taken over the union)
+    for which, parts in (("cam", cam_parts), ("vam", vam_parts)):
+        for label, margs, depth, split in parts:
+            which_of[label] = which
+            model = (mk_cam if which == "cam" else mk_vam)(*margs)
+            head = X.bfs(model, min(split, depth), xcheck_every=0)
+            total = X.Result()
+            total.merge(head)
+            results[label] = total
+            if depth > split:
+                total.complete, total.cap_hit = True, None
+                for pre in X._prefixes(model, split):
+                    jobs.append((which, label, margs, pre, depth))
+    random.Random(ctx.seed).shuffle(jobs)
+    pool = mp.Pool(16)
+    try:
+        for label, r in pool.imap_unordered(_bfs_job, jobs):
+            results[label].merge(r)
+        gn, pn = _gdt_lattices(ctx, pool, thorough)
+    finally:
+        pool.close()
+        pool.join()
+    trans += pn
+    if True:
+        for label, r in results.items():
+            states += r.states
+            trans += r.transitions
+            xchecks += r.xchecks
+            pruned += r.pruned
+            digests.append((label, r.digest()))
+            samples.extend(sorted(r.samples)[:1])
+            outcomes.update(r.outcomes)
+            closed[label] = bool(r.complete)
+            if r.cap_hit:
+                caps.append((label, r.cap_hit))
+            seen = set()
+            for rec, hist in r.violations:
+                rec.setdefault("part", label)
+                key = json.dumps(rec, sort_keys=True, default=repr)
+                if key in seen:
+                    continue
+                seen.add(key)
+                ctx.violation(rec, replay=dict(part=label, which=which_of[label], history=hist))
+            ctx.parts[label] = dict(states=r.states, transitions=r.transitions, max_depth=r.max_depth, graph_closed=r.complete,
+                                    cap=r.cap_hit, xchecks=r.xchecks, outcomes=len(r.outcomes), pruned_successors=r.pruned)
 
     ctx.coverage.update(
         states=states, transitions=trans, traces_validated_against_impl=trans, replay_crosschecks=xchecks,
